@@ -47,11 +47,11 @@ W2P == {W2(p, g) : p \in PS, g \in {0, 1}}
 NoW2 == [on |-> FALSE, par |-> -1, name |-> "", flag |-> FALSE, val |-> 0]
 Kind(s) == IF s \in GS THEN "G" ELSE IF s \in OS THEN "O" ELSE IF s \in DS THEN "D" ELSE "R"
 
-NoMem  == [par |-> -1, name |-> "", flag |-> FALSE, val |-> 0]
-NoNode == [on |-> FALSE, name |-> "", flag |-> FALSE, val |-> 0]
+NoMem  == [par |-> -1, name |-> "", flag |-> FALSE, val |-> 0, meta |-> 0]
+NoNode == [on |-> FALSE, name |-> "", flag |-> FALSE, val |-> 0, meta |-> 0]
 NoPG   == [owner |-> -1, name |-> "", props |-> {}]
 Live(s) == mem[s].par # -1                      \* a Python object for this uid exists
-Node(s) == [on |-> TRUE, name |-> mem[s].name, flag |-> mem[s].flag, val |-> mem[s].val]
+Node(s) == [on |-> TRUE, name |-> mem[s].name, flag |-> mem[s].flag, val |-> mem[s].val, meta |-> mem[s].meta]
 
 \* ======================= reachability
 RECURSIVE Down(_, _)
@@ -128,10 +128,10 @@ Init ==
 \* Workspace.create_entity -> save_entity -> H5Writer.write_entity / write_to_parent
 \* (workspace.py:434-480,1300-1331; h5_writer.py:214-248,686-752,943-988)
 Birth(s, p, n, v) ==
-    /\ mem' = [mem EXCEPT ![s] = [par |-> p, name |-> n, flag |-> TRUE, val |-> v]]
+    /\ mem' = [mem EXCEPT ![s] = [par |-> p, name |-> n, flag |-> TRUE, val |-> v, meta |-> 0]]
     /\ kids' = [kids EXCEPT ![p] = @ \cup {s}]
     /\ reg' = [reg EXCEPT ![s] = "live"]
-    /\ fnode' = [fnode EXCEPT ![s] = [on |-> TRUE, name |-> n, flag |-> TRUE, val |-> v]]
+    /\ fnode' = [fnode EXCEPT ![s] = [on |-> TRUE, name |-> n, flag |-> TRUE, val |-> v, meta |-> 0]]
     /\ flink' = flink \cup {<<p, s>>}
     /\ fopt' = [fopt EXCEPT ![s] = TRUE]
 
@@ -161,7 +161,7 @@ AddData(o, n, v) ==                                \* ObjectBase.add_data (objec
 CreateDeferred(p, n) ==
     /\ Do("CreateDeferred") /\ Writable /\ p \in Att \cap ({Root} \cup GS) /\ p \notin dirty /\ FreeSet(GS) # {} /\ dirty = {}
     /\ LET s == Lowest(FreeSet(GS)) IN
-         /\ mem' = [mem EXCEPT ![s] = [par |-> p, name |-> n, flag |-> TRUE, val |-> 0]]
+         /\ mem' = [mem EXCEPT ![s] = [par |-> p, name |-> n, flag |-> TRUE, val |-> 0, meta |-> 0]]
          /\ kids' = [kids EXCEPT ![p] = @ \cup {s}]
          /\ reg' = [reg EXCEPT ![s] = "live"]
          /\ dirty' = dirty \cup {s}
@@ -206,6 +206,14 @@ SetVal(d, v) ==                                    \* Data.values setter (data/d
     /\ Ok("SetVal", [s |-> d, v |-> v], {d})
     /\ UNCHANGED <<kids, pg, reg, flink, fpg, held, mode, Aux>>
 
+\* Entity.metadata setter (entity.py:229-243): a dictionary stored with the entity (groups and objects)
+SetMeta(s, v) ==
+    /\ Do("SetMeta") /\ Writable /\ s \in Att \cap (GS \cup OS) /\ mem[s].meta # v /\ s \notin dirty
+    /\ mem' = [mem EXCEPT ![s].meta = v]
+    /\ fnode' = [fnode EXCEPT ![s].meta = v]
+    /\ Ok("SetMeta", [s |-> s, v |-> v], {s})
+    /\ UNCHANGED <<kids, pg, reg, flink, fpg, held, mode, Aux>>
+
 \* ======================= re-parenting
 \* Entity.parent setter (entity.py:268-286): add to the new parent, unlink from the old one
 \* (memory + file link), re-save (link under the new parent).  A data leaving an object is
@@ -237,10 +245,10 @@ AddDataFails(o, n) ==
     /\ Do("AddDataFails") /\ Writable /\ o \in Att \cap OS /\ o \notin dirty /\ FreeSet(DS) # {} /\ dirty = {}
     /\ LET s == Lowest(FreeSet(DS)) IN
          \* the entity keeps the values it was given in memory (token 1); the node has none (token 0)
-         /\ mem' = [mem EXCEPT ![s] = [par |-> o, name |-> n, flag |-> TRUE, val |-> 1]]
+         /\ mem' = [mem EXCEPT ![s] = [par |-> o, name |-> n, flag |-> TRUE, val |-> 1, meta |-> 0]]
          /\ kids' = [kids EXCEPT ![o] = @ \cup {s}]
          /\ reg' = [reg EXCEPT ![s] = "live"]
-         /\ fnode' = [fnode EXCEPT ![s] = [on |-> TRUE, name |-> n, flag |-> TRUE, val |-> 0]]
+         /\ fnode' = [fnode EXCEPT ![s] = [on |-> TRUE, name |-> n, flag |-> TRUE, val |-> 0, meta |-> 0]]
          /\ fopt' = [fopt EXCEPT ![s] = TRUE]
          /\ dirty' = dirty \cup {s}
          /\ last' = [act |-> "AddDataFails", args |-> [s |-> s, p |-> o, n |-> n], out |-> "ValueError", foot |-> {s}]
@@ -503,7 +511,7 @@ LoadOf(fn, fl, fg) ==
     LET R == FDownL(fl, {Root}, {Root}) IN
     [mem  |-> [s \in ES |-> IF s \in R /\ fn[s].on
                              THEN [par |-> (CHOOSE q \in Cont : <<q, s>> \in fl /\ q \in R),
-                                   name |-> fn[s].name, flag |-> fn[s].flag, val |-> fn[s].val]
+                                   name |-> fn[s].name, flag |-> fn[s].flag, val |-> fn[s].val, meta |-> fn[s].meta]
                              ELSE NoMem],
      kids |-> [c \in Cont |-> IF c \in R THEN {l[2] : l \in {x \in fl : x[1] = c}} ELSE {}],
      pg   |-> [p \in PS |-> IF fg[p].owner \in R \ {Root} THEN fg[p] ELSE NoPG],
@@ -572,6 +580,7 @@ Next ==
     \/ \E s \in ES, n \in Names : Rename(s, n)
     \/ \E s \in ES, b \in BOOLEAN : SetFlag(s, b)
     \/ \E d \in DS, v \in Vals : SetVal(d, v)
+    \/ \E s \in GS \cup OS, v \in Vals : SetMeta(s, v)
     \/ \E s \in ES, p \in Cont : Move(s, p)
     \/ \E s \in ES : MoveSame(s) \/ StripOpt(s)
     \/ \E o \in OS, n \in Names : AddDataFails(o, n)
@@ -600,7 +609,7 @@ DepthBound == TLCGet("level") <= MaxDepth
 \* --- C01: what a fresh reader would load equals what the live workspace shows
 LoadTree == [s \in ES |-> IF s \in FReach /\ fnode[s].on
                           THEN [par |-> (CHOOSE q \in Cont : <<q, s>> \in flink /\ q \in FReach),
-                                name |-> fnode[s].name, flag |-> fnode[s].flag, val |-> fnode[s].val]
+                                name |-> fnode[s].name, flag |-> fnode[s].flag, val |-> fnode[s].val, meta |-> fnode[s].meta]
                           ELSE NoMem]
 LiveTree == [s \in ES |-> IF s \in Att THEN mem[s] ELSE NoMem]
 LoadPG == [p \in PS |-> IF fpg[p].owner \in FReach THEN fpg[p] ELSE NoPG]
